@@ -127,7 +127,7 @@ def judge(ctx, cases, impl):
 
 def run(ctx):
     g = G(ctx.seed)
-    cases = gen(g, 8 if ctx.tier == 'quick' else 40, ctx.tier)
+    cases = gen(g, 24 if ctx.tier == 'quick' else 40, ctx.tier)
     impl, model = run_apps(ctx, cases)
     judge(ctx, cases, impl)
     for c in cases:
